@@ -44,6 +44,19 @@ fn main() {
             }
             std::process::exit(checks::run_check(&id, &tier, seed));
         }
+        "search" => {
+            // debugging aid: run the real search on a FEN with an unlimited scripted clock
+            let fen = args.get(2).cloned().unwrap_or_else(|| usage());
+            let depth: u32 = args.get(3).and_then(|s| s.parse().ok()).unwrap_or(3);
+            let z = walleye::zobrist::ZobristHasher::create_zobrist_hasher();
+            let p = referee::Pos::from_fen(&fen).expect("fen");
+            let (b, t) = walleye::sb::setup(&p, &[], &z).expect("setup");
+            let r = walleye::sb::run_search(&b, &t, u64::MAX, Some(depth + 1), 5_000_000);
+            for (q, l) in &r.lines {
+                println!("q{} {}", q, l);
+            }
+            println!("queries={} nodes={} panicked={:?}", r.queries, r.nodes, r.panicked);
+        }
         "replay" => {
             if args.len() < 3 {
                 usage();
